@@ -41,6 +41,7 @@ type sockWrite struct {
 type netScript struct {
 	Data    []SliceV
 	Arrival []*Term
+	Other   []bool // the datagram comes from another port of the peer: a connected socket never sees it
 }
 
 type netState struct {
@@ -179,6 +180,12 @@ func (e *Engine) sockRead(st *State, recv Value, buf SliceV, udpFrom bool) []exi
 	e.clockOn(st)
 	ns := st.net
 	var out []exit
+	// datagrams from another port than the one a connected socket is connected to are dropped by the kernel
+	for ns != nil && ns.script != nil && ns.pos < len(ns.script.Data) && so.Remote != nil && ns.pos < len(ns.script.Other) && ns.script.Other[ns.pos] {
+		nn := st.netw()
+		nn.pos++
+		ns = st.net
+	}
 	hasNext := ns != nil && ns.script != nil && ns.pos < len(ns.script.Data)
 	if !hasNext {
 		if so.RDl == nil {
@@ -512,6 +519,18 @@ func (e *Engine) netIntrinsic(st *State, name string, args []Value) ([]exit, boo
 		}
 		n := st.netw()
 		n.script, n.pos = sc, 0
+		return retExit(st, nil), true
+	case "verifNetFromOtherPort":
+		i := concreteInt(args[0], name)
+		if st.net == nil || st.net.script == nil || i >= len(st.net.script.Data) {
+			panic(unsupported("verifNetFromOtherPort: no such datagram"))
+		}
+		sc := *st.net.script
+		sc.Other = make([]bool, len(sc.Data))
+		copy(sc.Other, st.net.script.Other)
+		sc.Other[i] = true
+		n := st.netw()
+		n.script = &sc
 		return retExit(st, nil), true
 	case "verifNetArrival":
 		i := concreteInt(args[0], name)
